@@ -1,0 +1,69 @@
+//go:build verif
+
+// Machine-checked contracts for package hashring (comment-only; read by /verif/govc).
+// Property C21: hash ring replica sets.
+//
+// The ring is a monitor: addrs (members), hash (one rendezvous node per member) and healthy are
+// published together in one critical section. The lock invariant says the three agree: healthy
+// hosts are members, the node labels are exactly the members, one node each. Locations is verified
+// against the case analysis of the property, stated over `nodes`, the owner order returned by
+// GetOrderedNodes for the digest (a permutation of the node list, lib/hrw contracts).
+
+package hashring
+
+//@ specfunc nodesAgree(h *hrw.RendezvousHash, addrs stringset.Set) bool = h != nil && addrs != nil && len(h.Nodes) == len(addrs) && (forall j int :: 0 <= j && j < len(h.Nodes) ==> h.Nodes[j] != nil && (h.Nodes[j].Label in addrs)) && (forall a string :: (a in addrs) ==> (exists j int :: 0 <= j && j < len(h.Nodes) && h.Nodes[j].Label == a)) && (forall a int, b int :: 0 <= a && a < b && b < len(h.Nodes) ==> h.Nodes[a] != h.Nodes[b] && h.Nodes[a].Label != h.Nodes[b].Label)
+
+// (`ref`: the three fields are replaced under the lock; the sets and the hash they point to are never
+// modified once published.)
+//@ lockinv ring.mu self r guards ref addrs, ref hash, ref healthy
+//@   invariant nonempty: len(r.addrs) >= 1
+//@   invariant healthy_members: r.healthy != nil && (forall a string :: (a in r.healthy) ==> (a in r.addrs))
+//@   invariant one_node_per_member: nodesAgree(r.hash, r.addrs)
+
+//@ func Config.applyDefaults
+//@   requires c != nil
+//@   modifies c.MaxReplica, c.RefreshInterval, c.MembershipWaitTimeout, c.MembershipWaitInterval
+//@   ensures c.MaxReplica != 0 && (old(c.MaxReplica) != 0 ==> c.MaxReplica == old(c.MaxReplica))
+
+// Locations: never empty, members only; with no healthy member the top owner; otherwise the healthy
+// hosts among the first MaxReplica owners in owner order, or, when none of those is healthy, the
+// single first healthy owner.
+//@ func ring.Locations
+//@   requires r != nil && r.config.MaxReplica >= 1
+//@   ensures nonempty: len(result) >= 1
+//@   ensures bounded: len(result) <= r.config.MaxReplica
+//@   ensures members: forall j int :: 0 <= j && j < len(result) ==> (result[j] in r.addrs)
+//@   ensures none_healthy: len(r.healthy) == 0 ==> len(result) == 1 && result[0] == nodes[0].Label
+//@   ensures sound: len(r.healthy) != 0 ==> (forall j int :: 0 <= j && j < len(result) ==> (exists t int :: 0 <= t && t < len(nodes) && result[j] == nodes[t].Label && (result[j] in r.healthy) && (t < r.config.MaxReplica || (len(result) == 1 && (forall u int :: 0 <= u && u < t ==> !(nodes[u].Label in r.healthy))))))
+//@   ensures complete: len(r.healthy) != 0 ==> (forall t int :: 0 <= t && t < len(nodes) && t < r.config.MaxReplica && (nodes[t].Label in r.healthy) ==> (exists j int :: 0 <= j && j < len(result) && result[j] == nodes[t].Label))
+//@   ensures owner_order: forall j1 int, j2 int :: 0 <= j1 && j1 < j2 && j2 < len(result) ==> (exists t1 int, t2 int :: 0 <= t1 && t1 < t2 && t2 < len(nodes) && result[j1] == nodes[t1].Label && result[j2] == nodes[t2].Label)
+//@   ensures owners_are_all_members: len(nodes) == len(r.addrs) && (forall t int :: 0 <= t && t < len(nodes) ==> nodes[t] != nil && (nodes[t].Label in r.addrs))
+//@   loop 0 invariant range: 0 <= i && i <= len(nodes) && len(locs) <= i && len(locs) <= r.config.MaxReplica
+//@   loop 0 invariant sound: forall j int :: 0 <= j && j < len(locs) ==> (exists t int :: 0 <= t && t < i && locs[j] == nodes[t].Label && (locs[j] in r.healthy) && (t < r.config.MaxReplica || (len(locs) == 1 && (forall u int :: 0 <= u && u < t ==> !(nodes[u].Label in r.healthy)))))
+//@   loop 0 invariant complete: forall t int :: 0 <= t && t < i && t < r.config.MaxReplica && (nodes[t].Label in r.healthy) ==> (exists j int :: 0 <= j && j < len(locs) && locs[j] == nodes[t].Label)
+//@   loop 0 invariant none_yet: len(locs) == 0 ==> (forall u int :: 0 <= u && u < i ==> !(nodes[u].Label in r.healthy))
+//@   loop 0 invariant owner_order: forall j1 int, j2 int :: 0 <= j1 && j1 < j2 && j2 < len(locs) ==> (exists t1 int, t2 int :: 0 <= t1 && t1 < t2 && t2 < i && locs[j1] == nodes[t1].Label && locs[j2] == nodes[t2].Label)
+
+//@ func ring.Contains
+//@   requires r != nil
+//@   ensures result <==> (addr in r.addrs)
+
+//@ func ring.Members
+//@   requires r != nil
+//@   ensures copy: forall a string :: (a in result) <==> (a in r.addrs)
+//@   ensures isfresh: fresh(result)
+
+// Refresh: the sole writer of the ring (New, then the Monitor goroutine). It reads the published
+// state without the lock, which is sound for the only writer; the precondition is the lock invariant
+// of the state it last published (or the unpublished state of a ring under construction).
+//@ func ring.Refresh
+//@   requires r != nil && r.cluster != nil && r.filter != nil && r.cluster.nonempty
+//@   requires sole_writer: (r.addrs == nil && r.hash == nil) || (len(r.addrs) >= 1 && nodesAgree(r.hash, r.addrs))
+//@   modifies r.addrs, r.hash, r.healthy, r.cluster.resolved
+//@   ensures members_are_latest: r.addrs == r.cluster.resolved
+//@   ensures published: len(r.addrs) >= 1 && r.healthy != nil && (forall a string :: (a in r.healthy) ==> (a in r.addrs)) && nodesAgree(r.hash, r.addrs)
+//@   loop 0 invariant building: hash != nil && hash != old(r.hash) && fresh(hash) && len(hash.Nodes) == nseen0
+//@   loop 0 invariant latest_same: forall a string :: (a in latest) <==> entry(a in latest)
+//@   loop 0 invariant nodes_seen: forall j int :: 0 <= j && j < len(hash.Nodes) ==> hash.Nodes[j] != nil && seen0(hash.Nodes[j].Label) && (hash.Nodes[j].Label in latest)
+//@   loop 0 invariant seen_nodes: forall a string :: seen0(a) ==> (exists j int :: 0 <= j && j < len(hash.Nodes) && hash.Nodes[j].Label == a)
+//@   loop 0 invariant distinct: forall a int, b int :: 0 <= a && a < b && b < len(hash.Nodes) ==> hash.Nodes[a] != hash.Nodes[b] && hash.Nodes[a].Label != hash.Nodes[b].Label
